@@ -66,6 +66,62 @@ theorem binary_test_entries_eq_def (rq : List ℚ) (cnt : List ℕ) (rows : List
     have hp := (hact a ha).2.2
     exact ⟨binaryLL_eq_binaryDef _ hp, binaryLL_eq_def _ hp⟩
 
+/-- **C16, default random path** (`random_numbers=None`, `num_simulations = nsim ≥ 0`, with or without seed): there is
+    one simulated entry PER simulated catalog, the k-th entry is the score of the k-th catalog (no entry is the score of
+    another simulation's catalog), each catalog is 0/1-valued with exactly `nActive cnt` active bins, all of positive rate,
+    and every entry equals the definition — again with no hypothesis on the rates. -/
+theorem binary_stream_entries_eq_def (rq : List ℚ) (cnt : List ℕ) (nsim : ℕ) (stream : List ℚ) (out : TestOut ℝ)
+    (hd : ∀ r ∈ stream, 0 ≤ r)
+    (h : binaryLikelihoodTestStream rq (castR rq) cnt nsim stream = some out) :
+    out.arrays.length = nsim ∧ out.sims.length = nsim ∧
+    out.obs = binaryLL ((castR rq).zip cnt) ∧
+    out.sims = out.arrays.map (fun a => binaryLL ((castR rq).zip a)) ∧
+    ∀ a ∈ out.arrays, a.length = rq.length ∧ a.sum = nActive cnt ∧ (∀ x ∈ a, x = 0 ∨ x = 1) ∧
+      binaryDef ((castR rq).zip a) = .fin (binaryLL ((castR rq).zip a)) := by
+  unfold binaryLikelihoodTestStream at h
+  split at h
+  · cases h
+  · rename_i arrs hs
+    simp only [Option.some.injEq] at h
+    subst h
+    obtain ⟨hl, hall⟩ := stream_arrays_spec rq _ nsim stream arrs hd hs
+    refine ⟨hl, by simp [hl], rfl, rfl, ?_⟩
+    intro a ha
+    obtain ⟨hb, hsum, hlen, hpos⟩ := hall a ha
+    refine ⟨hlen, hsum, hb, ?_⟩
+    apply binaryLL_eq_binaryDef
+    intro p hp hw
+    obtain ⟨k, hk, e1, e2⟩ := mem_zip_castR hp
+    rw [e1]
+    have := hpos k hk (by rw [← e2]; exact hw)
+    exact_mod_cast this
+
+/-- the Brier test on the default random path: one entry per simulated catalog, each the definition with N = number of bins -/
+theorem brier_stream_entries_eq_def (rq : List ℚ) (dims : List ℕ) (cnt : List ℕ) (nsim : ℕ) (stream : List ℚ)
+    (out : TestOut ℝ) (hd : ∀ r ∈ stream, 0 ≤ r)
+    (h : brierScoreTestStream rq (castR rq) dims cnt nsim stream = some out) :
+    out.arrays.length = nsim ∧ out.obs = brierDef dims.prod ((castR rq).zip cnt) ∧
+    out.sims = out.arrays.map (fun a => brierDef rq.length ((castR rq).zip a)) ∧
+    ∀ a ∈ out.arrays, a.length = rq.length ∧ a.sum = nActive cnt := by
+  unfold brierScoreTestStream at h
+  split at h
+  · cases h
+  · rename_i arrs hs
+    simp only [Option.some.injEq] at h
+    subst h
+    obtain ⟨hl, hall⟩ := stream_arrays_spec rq _ nsim stream arrs hd hs
+    refine ⟨hl, brier_eq_def _ _, ?_, fun a ha => ⟨(hall a ha).2.2.1, (hall a ha).2.1⟩⟩
+    apply List.map_congr_left
+    intro a _
+    rw [brier_eq_def, weightsMasked_length]
+    simp
+
+-- two simulations on the default path: the second consumes what the first left of the stream
+example : Sampler.testBinaryStream (Sampler.weightsMasked [1/2, 0, 1/4]) 1 (Nat.succ (Nat.succ 0))
+    [1/10, 9/10, 1/5, 3/10] = some [[1, 0, 0], [0, 0, 1]] := by
+  simp only [Sampler.testBinaryStream]
+  decide +kernel
+
 /-- the observed entry equals the definition when no observed event sits in a bin of rate ≤ 0 -/
 theorem binary_test_observed_eq_def (rq : List ℚ) (cnt : List ℕ) (rows : List (List ℚ)) (out : TestOut ℝ)
     (h : binaryLikelihoodTest rq (castR rq) cnt rows = some out)
